@@ -1210,6 +1210,7 @@ def install(w):
 
         def __init__(self, mref):
             self.mref = mref
+            self.panicking_at_lock = bool(w.unwinding_now)
 
         def deref(self, it):
             return Ref(self.mref.cell, tuple(self.mref.path) + (0,), True)
@@ -1217,8 +1218,11 @@ def install(w):
         def drop(self, it):
             m = it.load(self.mref.cell, self.mref.path)
             m.fields[1] = False
-            if w.unwinding_now:
-                m.fields[2] = True        # std poisons a mutex whose guard is dropped while panicking
+            # std::sync::poison: the flag is set iff the thread is panicking now and was NOT
+            # already panicking when the lock was taken (a lock taken and released by a destructor
+            # that runs during unwinding does not poison)
+            if w.unwinding_now and not self.panicking_at_lock:
+                m.fields[2] = True
 
     @reg("Mutex::new")
     def mutex_new(w, it, a, c):
